@@ -343,6 +343,10 @@ class HashWalkEngine:
                     name, attr, vals = rng.choice(PARAM_EDITS)
                     ops.append({"op": "param", "name": name, "attr": attr,
                                 "value": rng.choice(vals)})
+        for o in ops:
+            if o["op"] in ("init", "set", "pipeline", "model", "perturb") \
+                    and rng.random() < (0.4 if o["op"] == "init" else 0.1):
+                o["implicit"] = rng.choice(["fitter", "fit_model"])
         xproc = (index % 20 == 7)
         return {"config": {"curve": cfg, "xproc": xproc}, "ops": ops}
 
@@ -591,6 +595,33 @@ class HashWalkEngine:
                     f"{h}, fresh object with the stored settings (other "
                     f"order/representation) {hf}", i)
                 break
+            # ---- H4: initial parameters left to the fitter ----------------
+            # "no initial parameters" means the fitter's own guess: a fitter
+            # created without any, a fitter given that guess explicitly and
+            # fit_model() without any describe the same fit
+            if op.get("implicit"):
+                hn = self.fresh_hash(live, cfg, perturb, rng, "none")
+                hg = self.fresh_hash(live, cfg, perturb, rng, "guess")
+                oracle_checks += 1
+                probes["H4 implicit initial parameters compared"] += 1
+                bad = None
+                if hn != hg:
+                    bad = ("fitter-without-parameters", hn,
+                           "guess passed explicitly", hg)
+                elif not str(hn).startswith("raises:") and \
+                        op["implicit"] == "fit_model":
+                    hm = self.fresh_hash(live, cfg, perturb, rng,
+                                         "fit_model")
+                    if hm is not None and hm != hn:
+                        bad = ("fit_model-without-parameters", hm,
+                               "fitter without parameters", hn)
+                if bad:
+                    feats["route"] = bad[0]
+                    violation = viol(
+                        "H1", "implicit-parameters", feats,
+                        f"equal effective settings, different hash: {bad[0]} "
+                        f"{bad[1]} vs {bad[2]} {bad[3]}", i)
+                    break
             # ---- H1 against every earlier state --------------------------
             for (c0, h0, i0, k0) in states:
                 oracle_checks += 1
@@ -623,9 +654,14 @@ class HashWalkEngine:
                 "nontrivial": ncanon >= 3 and special,
                 "oracle_checks": oracle_checks, "ops_executed": executed}
 
-    def fresh_hash(self, live, cfg, perturb, rng):
+    def fresh_hash(self, live, cfg, perturb, rng, pinit_mode="explicit"):
         """Hash of a freshly built object that gets the live object's stored
-        settings in another order and other representations."""
+        settings in another order and other representations.
+
+        `pinit_mode`: "explicit" - the stored initial parameters; "none" -
+        no initial parameters at all (the fitter fills in its guess);
+        "guess" - that guess, passed explicitly; "fit_model" - like "none",
+        but the hash is the one fit_model() stores."""
         from nanite.fit import FP_DEFAULT
         fp = live.fit_properties
         f = curves.make_curve(cfg)
@@ -640,10 +676,31 @@ class HashWalkEngine:
             # model and parameters first and by the same route (a model
             # change resets the parameters, by design)
             kw = {}
+            mk = fp.get("model_key", FP_DEFAULT["model_key"])
+            if pinit_mode != "explicit":
+                from nanite.fit import guess_initial_parameters
+                f.fit_properties["model_key"] = mk
+                if pinit_mode == "guess":
+                    f.fit_properties["params_initial"] = \
+                        guess_initial_parameters(idnt=f, model_key=mk)
+                keys = [k for k in SETTING_KEYS if k in fp
+                        and k not in ("model_key", "params_initial")]
+                for k in keys:
+                    kw[k] = _plain(fp[k])
+                if pinit_mode == "fit_model":
+                    # a fit that cannot be carried out stores no hash
+                    try:
+                        f.fit_model(**kw)
+                    except _caught():
+                        return None
+                    return f.fit_properties.get("hash")
+                try:
+                    return read_hash(f, **kw)
+                except _caught() as e:
+                    return f"raises:{type(e).__name__}"
             pinit = rebuild_params(fp["params_initial"], rng) \
                 if rng.random() < 0.6 else copy.deepcopy(
                     fp["params_initial"])
-            mk = fp.get("model_key", FP_DEFAULT["model_key"])
             if rng.random() < 0.25:
                 # both through the fitter's keyword arguments, parameters
                 # listed first (a mapping has no order that may matter)
@@ -674,6 +731,10 @@ class HashWalkEngine:
         if op.get("route") == "fit_model":
             o = dict(op)
             o["route"] = "setitem"
+            yield o
+        if op.get("implicit"):
+            o = dict(op)
+            o.pop("implicit")
             yield o
 
 
